@@ -8,11 +8,12 @@ out=/tmp/seed-$pid-$tag-out
 export GOFLAGS=-mod=mod GOPROXY=off GOSUMDB=off GOTOOLCHAIN=local
 W=$(mktemp -d /tmp/wt-seed-XXXXXX); rmdir $W
 git -C /repo worktree add -q --detach $W HEAD || exit 2
-trap 'git -C /repo worktree remove --force $W >/dev/null 2>&1; rm -rf /tmp/verif-alt-out' EXIT
+VERIF_ALT_OUT=$(mktemp -d /tmp/verif-alt-XXXXXX); export VERIF_ALT_OUT  # private: several evaluations may run side by side
+trap 'git -C /repo worktree remove --force $W >/dev/null 2>&1; rm -rf "$VERIF_ALT_OUT"' EXIT
 demo=${DEMOFILE:-}; [ -n "$demo" ] || demo=$(ls $out/demo_test.go $out/demo*_test.go $out/demo/main.go 2>/dev/null | head -1)
 res=/tmp/seed-$pid-$tag-eval.txt; : > $res
 cp "$demo" $W/$demopath
-( cd $W && go test ${DEMOFLAGS:-} -vet=off -count=1 -run "$demorun" ./$(dirname $demopath)/ ) > /tmp/seed-demo-clean.txt 2>&1; echo "demo on clean tree: exit $?" | tee -a $res
+( cd $W && go test ${DEMOFLAGS:-} -vet=off -count=1 -run "$demorun" ./$(dirname $demopath)/ ) > /tmp/seed-$pid-$tag-demo-clean.txt 2>&1; echo "demo on clean tree: exit $?" | tee -a $res
 rm $W/$demopath
 if ! ( cd $W && git apply $out/patch.diff 2>/dev/null ); then
   # /repo has moved on since the change was written (fix: commits): carry it over with a three-way merge
@@ -21,12 +22,12 @@ if ! ( cd $W && git apply $out/patch.diff 2>/dev/null ); then
   echo "patch carried over to the current /repo with a three-way merge (patch.rebased.diff)" | tee -a $res
 fi
 ( cd $W && go build ./... ) && echo "builds: yes" | tee -a $res
-( cd $W && go test -vet=off -count=1 ./... 2>&1 | grep -v "no test files" | grep -v "^ok" ) > /tmp/seed-suite.txt; if [ -s /tmp/seed-suite.txt ]; then echo "SUITE OUTPUT:"; cat /tmp/seed-suite.txt; ( cd $W && go test -vet=off -count=1 ./... 2>&1 | grep -v "no test files" | grep -v "^ok" ) | tee -a $res; else echo "pinned suite with the change: passes" | tee -a $res; fi
+( cd $W && go test -vet=off -count=1 ./... 2>&1 | grep -v "no test files" | grep -v "^ok" ) > /tmp/seed-$pid-$tag-suite.txt; if [ -s /tmp/seed-$pid-$tag-suite.txt ]; then echo "SUITE OUTPUT:"; cat /tmp/seed-$pid-$tag-suite.txt; ( cd $W && go test -vet=off -count=1 ./... 2>&1 | grep -v "no test files" | grep -v "^ok" ) | tee -a $res; else echo "pinned suite with the change: passes" | tee -a $res; fi
 cp "$demo" $W/$demopath
-( cd $W && go test ${DEMOFLAGS:-} -vet=off -count=1 -run "$demorun" ./$(dirname $demopath)/ ) > /tmp/seed-demo-mut.txt 2>&1; echo "demo with the change: exit $?" | tee -a $res
+( cd $W && go test ${DEMOFLAGS:-} -vet=off -count=1 -run "$demorun" ./$(dirname $demopath)/ ) > /tmp/seed-$pid-$tag-demo-mut.txt 2>&1; echo "demo with the change: exit $?" | tee -a $res
 rm $W/$demopath
 for c in $pid "$@"; do
-  VERIF_REPO=$W /verif/check $c --tier ${TIER:-quick} > /tmp/seed-check-$c.txt 2>&1; rc=$?
-  echo "check $c (${TIER:-quick}): exit $rc; $(grep -c '^VIOLATION' /tmp/seed-check-$c.txt) violation lines; $(tail -1 /tmp/seed-check-$c.txt | cut -c1-160)" | tee -a $res
-  grep -A2 '^VIOLATION' /tmp/seed-check-$c.txt | grep -v '^--\|VIOLATION' | head -4 | cut -c1-300 | tee -a $res
+  VERIF_REPO=$W /verif/check $c --tier ${TIER:-quick} > /tmp/seed-$pid-$tag-check-$c.txt 2>&1; rc=$?
+  echo "check $c (${TIER:-quick}): exit $rc; $(grep -c '^VIOLATION' /tmp/seed-$pid-$tag-check-$c.txt) violation lines; $(tail -1 /tmp/seed-$pid-$tag-check-$c.txt | cut -c1-160)" | tee -a $res
+  grep -A2 '^VIOLATION' /tmp/seed-$pid-$tag-check-$c.txt | grep -v '^--\|VIOLATION' | head -4 | cut -c1-300 | tee -a $res
 done
